@@ -122,6 +122,22 @@ def solve_records(records, timeout_ms, jobs):
     return records
 
 
+def settle_covers(records):
+    """Vacuity guard per function: its requires must be satisfiable on at least one path; case-split paths that
+    contradict the requires (e.g. an optional parameter that the contract says is present) are dropped."""
+    groups = {}
+    for r in records:
+        if r['kind'] == 'cover':
+            groups.setdefault(r['func'] + '|' + r['name'].split(':cover')[0], []).append(r)
+    drop = set()
+    for g, rs in groups.items():
+        if any(r['status'] == 'discharged' for r in rs):
+            for r in rs:
+                if r['status'] != 'discharged':
+                    drop.add(id(r))
+    return [r for r in records if id(r) not in drop]
+
+
 def load_json(path, default):
     try:
         with open(path) as f:
@@ -161,6 +177,7 @@ def run_property(eng, prop, args):
             problems.append(p)
     unique_names(records)
     solve_records(records, args.timeout, args.jobs)
+    records = settle_covers(records)
     return finish(eng, prop, tier, seed, targets, records, problems, crashes, missing, t0, gen_s, args)
 
 
